@@ -9,7 +9,7 @@ func init() {
 			cfg := engine.DefaultConfig()
 			cfg.Budget = 8000000
 			var cs []engine.Case
-			for op := int64(0); op < 14; op++ {
+			for op := int64(0); op < 15; op++ {
 				maxN := int64(3)
 				if tier == "thorough" {
 					maxN = 4
@@ -26,7 +26,7 @@ func init() {
 			return []group{{Tags: "", Pkgs: []string{"c04"}, Cases: cs}}
 		},
 		Reach:       []string{"query"},
-		Explanation: "Differential bounded symbolic execution of MemFS' path walk (searchNode in its three modes, PathIterator.ReplacePart, Symlink, Readlink, EvalSymlinks and every caller's choice of mode) against posixref's kernel path walk and Go's EvalSymlinks algorithm over the model: base tree {a/, a/a, b}; one or two symbolic links (/w/c, /w/a/c) whose TARGETS ARE SYMBOLIC STRINGS (every byte value except NUL), so sibling, parent-relative, absolute, self-referential, cyclic, dangling and every other target shape of that length is covered without listing shapes; 14 operations (Stat, Lstat, ReadFile, ReadDir, Chmod, Truncate, Mkdir below, EvalSymlinks, Readlink, Remove, Rename, Lchown, Link, Open with O_CREATE) on six query paths through the link names; errno, result and the state of every object must equal the model. The reference worlds are given the lexically cleaned target (the property grants cleaning). Natively every path is replayed against the kernel inside a chroot(2) scratch directory (arbitrary targets cannot escape); model/kernel disagreement = ORACLE mismatch (exit 3).",
+		Explanation: "Differential bounded symbolic execution of MemFS' path walk (searchNode in its three modes, PathIterator.ReplacePart, Symlink, Readlink, EvalSymlinks and every caller's choice of mode) against posixref's kernel path walk and Go's EvalSymlinks algorithm over the model: base tree {a/, a/a, b}; one or two symbolic links (/w/c, /w/a/c) whose TARGETS ARE SYMBOLIC STRINGS (every byte value except NUL), so sibling, parent-relative, absolute, self-referential, cyclic, dangling and every other target shape of that length is covered without listing shapes; 15 operations (Stat, Lstat, ReadFile, ReadDir, Chmod, Truncate, Mkdir below, EvalSymlinks, Readlink, Remove, Rename, Lchown, Link, Open with O_CREATE, Rename onto the link) on six query paths through the link names; errno, result and the state of every object must equal the model. The reference worlds are given the lexically cleaned target (the property grants cleaning). Natively every path is replayed against the kernel inside a chroot(2) scratch directory (arbitrary targets cannot escape); model/kernel disagreement = ORACLE mismatch (exit 3).",
 		Bounds: func(tier string) map[string]any {
 			return map[string]any{"links": "1 or 2", "target_length": map[string]string{"quick": "1..3 (one link), up to 2+1 (two links)", "thorough": "1..4 (one link), up to 3+2 (two links)"}[tier], "query_paths": 6, "outside": "longer targets, chains near the kernel limit of 40 (the code allows 64), query paths containing '..', more than two links"}
 		},
